@@ -1,2 +1,4 @@
 import DiplomatModel.Sexp
 import DiplomatModel.EnumGen
+import DiplomatModel.Utf8
+import DiplomatModel.Slices
